@@ -37,6 +37,71 @@ class Heavy:
         return '<%d items>' % len(self.v)
 
 
+
+class ScaleState:
+    """Which entries of the root output / residual vectors are currently in their scaled
+    (normalised) state.  OpenMDAO keeps no such flag; the harness tracks it by wrapping
+    `DefaultVector.scale_to_norm/scale_to_phys` for the duration of a run, so that the live snapshot
+    is always the PHYSICAL value of every variable, whatever context the recorder is called in."""
+
+    def __init__(self, model):
+        from openmdao.vectors.default_vector import DefaultVector
+        self.cls = DefaultVector
+        self.root = {'output': model._outputs, 'residual': model._residuals}
+        self.state = {k: np.zeros(v._data.size, dtype=bool) for k, v in self.root.items()}
+        self.orig = (DefaultVector.scale_to_norm, DefaultVector.scale_to_phys)
+
+    @staticmethod
+    def _addr(a):
+        return a.__array_interface__['data'][0]
+
+    def mark(self, vec, scaled):
+        if vec._name != 'nonlinear' or vec._kind not in self.root:
+            return
+        root = self.root[vec._kind]._data
+        off = (self._addr(vec._data) - self._addr(root)) // root.itemsize
+        if 0 <= off and off + vec._data.size <= root.size:
+            self.state[vec._kind][off:off + vec._data.size] = scaled
+
+    def __enter__(self):
+        o_norm, o_phys = self.orig
+        me = self
+
+        def scale_to_norm(vec, mode='fwd'):
+            o_norm(vec, mode)
+            if mode != 'rev':
+                me.mark(vec, True)
+
+        def scale_to_phys(vec, mode='fwd'):
+            o_phys(vec, mode)
+            if mode != 'rev':
+                me.mark(vec, False)
+        self.cls.scale_to_norm = scale_to_norm
+        self.cls.scale_to_phys = scale_to_phys
+        return self
+
+    def __exit__(self, *a):
+        self.cls.scale_to_norm, self.cls.scale_to_phys = self.orig
+
+    def physical(self, kind, name):
+        """Physical value of one variable of the root output/residual vector."""
+        vec = self.root[kind]
+        view = vec._abs_get_val(name, True)
+        raw = np.array(view, dtype=float)
+        if vec._scaling is None:
+            return raw
+        root = vec._data
+        off = (self._addr(view) - self._addr(root)) // root.itemsize
+        st = self.state[kind][off:off + raw.size]
+        if not st.any():
+            return raw
+        scaler, adder = vec._scaling
+        phys = raw * np.asarray(scaler)[off:off + raw.size] if np.ndim(scaler) else raw * scaler
+        if adder is not None:
+            phys = phys + (np.asarray(adder)[off:off + raw.size] if np.ndim(adder) else adder)
+        return np.where(st, phys, raw)
+
+
 def unwrap(impl):
     return {k: (v.v if isinstance(v, Heavy) else v) for k, v in impl.items()}
 
@@ -59,9 +124,49 @@ TEMPLATES = {
     'sellar_newton': ['problem', 'driver', 'root', 'g', 'g.nl', 'g.ls', 'g.d1', 'obj'],
     'sellar_newton_sub': ['problem', 'driver', 'root', 'g', 'g.nl', 'g.d1'],
     'flat': ['problem', 'driver', 'root', 'c1', 'c10'],
+    'flat_arr': ['problem', 'driver', 'root', 'c1', 'c10'],
     'rootfind': ['root', 'rootfind', 'other'],
     'tgroup': ['root', 't', 't.nl', 't.d1'],
 }
+
+
+# outputs that can be given ref/ref0/res_ref scaling: key -> size
+SCALABLE = {
+    'sellar_gs': {'ivc.x': 1, 'd1.y1': 1, 'd2.y2': 1, 'obj.f': 1},
+    'sellar_newton': {'ivc.x': 1, 'd1.y1': 1, 'd2.y2': 1, 'obj.f': 1},
+    'sellar_newton_sub': {'ivc.x': 1, 'd1.y1': 1, 'd2.y2': 1},
+    'flat': {'c1.y': 1, 'c10.f': 1},
+    'flat_arr': {'c1.y': 3, 'c10.f': 1},
+    'rootfind': {'rootfind.y': 1, 'other.y': 1},
+    'tgroup': {'d1.y1': 1, 'd2.y2': 1},
+}
+REF_PAIRS = [(2.0, 0.0), (0.5, 0.0), (4.0, 1.0), (1.0, 3.0), (0.25, 2.0), (-2.0, 0.0), (8.0, -1.0)]
+RES_REFS = [2.0, 0.5, 8.0, 0.125]
+
+
+def _scaling(rng, template):
+    """Random ref/ref0/res_ref (scalar or per-element arrays, ref < ref0 included) for some outputs."""
+    out = {}
+    for key, size in SCALABLE[template].items():
+        if rng.random() < 0.6:
+            meta = {}
+            as_array = size > 1 and rng.random() < 0.7
+            if rng.random() < 0.85:
+                if as_array:
+                    prs = [rng.choice(REF_PAIRS) for _ in range(size)]
+                    meta['ref'] = [a for a, _ in prs]
+                    meta['ref0'] = [b for _, b in prs]
+                else:
+                    a, b = rng.choice(REF_PAIRS)
+                    meta['ref'] = a
+                    if b != 0.0 or rng.random() < 0.3:
+                        meta['ref0'] = b
+            if rng.random() < 0.6:
+                meta['res_ref'] = [rng.choice(RES_REFS) for _ in range(size)] if as_array \
+                    else rng.choice(RES_REFS)
+            if meta:
+                out[key] = meta
+    return out
 
 
 def _opts(rng, kind):
@@ -103,16 +208,23 @@ def build_problem(case):
     p = om.Problem()
     m = p.model
     nl_kw = dict(iprint=-1, atol=1e-30, rtol=1e-30, err_on_non_converge=False)
+    scaling = case.get('scaling') or {}
+
+    def sc(key, **extra):
+        meta = {k: (np.array(v, dtype=float) if isinstance(v, list) else v)
+                for k, v in scaling.get(key, {}).items()}
+        meta.update(extra)
+        return meta
     if t.startswith('sellar'):
-        m.add_subsystem('ivc', om.IndepVarComp('x', 1.0), promotes=['*'])
+        m.add_subsystem('ivc', om.IndepVarComp('x', 1.0, **sc('ivc.x')), promotes=['*'])
         g = m.add_subsystem('g', om.Group())
         if t == 'sellar_gs':
-            g.add_subsystem('d1', om.ExecComp('y1 = 0.5*y2 + x'), promotes=['*'])
-            g.add_subsystem('d2', om.ExecComp('y2 = 0.25*y1 + 1'), promotes=['*'])
+            g.add_subsystem('d1', om.ExecComp('y1 = 0.5*y2 + x', y1=sc('d1.y1')), promotes=['*'])
+            g.add_subsystem('d2', om.ExecComp('y2 = 0.25*y1 + 1', y2=sc('d2.y2')), promotes=['*'])
             g.nonlinear_solver = om.NonlinearBlockGS(maxiter=case['nl_iter'], **nl_kw)
         else:
-            g.add_subsystem('d1', om.ExecComp('y1 = 0.5*y2*y2 + x'), promotes=['*'])
-            g.add_subsystem('d2', om.ExecComp('y2 = 0.25*y1 + 1'), promotes=['*'])
+            g.add_subsystem('d1', om.ExecComp('y1 = 0.5*y2*y2 + x', y1=sc('d1.y1')), promotes=['*'])
+            g.add_subsystem('d2', om.ExecComp('y2 = 0.25*y1 + 1', y2=sc('d2.y2')), promotes=['*'])
             g.nonlinear_solver = om.NewtonSolver(maxiter=case['nl_iter'],
                                                  solve_subsystems=(t == 'sellar_newton_sub'), **nl_kw)
             if t == 'sellar_newton':
@@ -121,7 +233,8 @@ def build_problem(case):
             else:
                 g.nonlinear_solver.linesearch = None
             g.linear_solver = om.DirectSolver()
-        m.add_subsystem('obj', om.ExecComp('f = (1-y1)**2 + 8*(z-y1*y1)**2'), promotes_outputs=['f'])
+        m.add_subsystem('obj', om.ExecComp('f = (1-y1)**2 + 8*(z-y1*y1)**2', f=sc('obj.f')),
+                        promotes_outputs=['f'])
         m.connect('x', 'g.x')
         m.connect('g.y1', 'obj.y1')
         m.add_design_var('x', lower=-5, upper=5 if t == 'sellar_gs' else 3)
@@ -130,21 +243,32 @@ def build_problem(case):
         m.add_constraint('g.y2', upper=10.)
         inits = {'x': case['init'][0], 'obj.z': case['init'][1]}
     elif t == 'flat':
-        m.add_subsystem('c1', om.ExecComp('y = 2*x + 1'), promotes=['*'])
-        m.add_subsystem('c10', om.ExecComp('f = (y-3)**2 + (w+1)**2 + 0.5*y*w'), promotes=['*'])
+        m.add_subsystem('c1', om.ExecComp('y = 2*x + 1', y=sc('c1.y')), promotes=['*'])
+        m.add_subsystem('c10', om.ExecComp('f = (y-3)**2 + (w+1)**2 + 0.5*y*w', f=sc('c10.f')),
+                        promotes=['*'])
         m.add_design_var('x', lower=-8, upper=8)
         m.add_design_var('w', lower=-8, upper=8)
         m.add_objective('f')
         m.add_constraint('y', lower=-20.)
         inits = {'x': case['init'][0], 'w': case['init'][1]}
+    elif t == 'flat_arr':
+        m.add_subsystem('c1', om.ExecComp('y = 2*x + 1', x=np.ones(3), y=sc('c1.y', val=np.ones(3))),
+                        promotes=['*'])
+        m.add_subsystem('c10', om.ExecComp('f = sum((y-3)**2) + (w+1)**2', y=np.ones(3), f=sc('c10.f')),
+                        promotes=['*'])
+        m.add_design_var('x', lower=-8, upper=8)
+        m.add_design_var('w', lower=-8, upper=8)
+        m.add_objective('f')
+        m.add_constraint('y', lower=-20.)
+        inits = {'x': np.array([case['init'][0], 0.5, -1.0]), 'w': case['init'][1]}
     elif t == 'rootfind':
-        m.add_subsystem('rootfind', om.ExecComp('y = 2*x'))
-        m.add_subsystem('other', om.ExecComp('y = 3*x'))
+        m.add_subsystem('rootfind', om.ExecComp('y = 2*x', y=sc('rootfind.y')))
+        m.add_subsystem('other', om.ExecComp('y = 3*x', y=sc('other.y')))
         inits = {'rootfind.x': case['init'][0], 'other.x': case['init'][1]}
     elif t == 'tgroup':
         g = m.add_subsystem('t', om.Group())
-        g.add_subsystem('d1', om.ExecComp('y1 = 0.5*y2 + x'), promotes=['*'])
-        g.add_subsystem('d2', om.ExecComp('y2 = 0.25*y1 + 1'), promotes=['*'])
+        g.add_subsystem('d1', om.ExecComp('y1 = 0.5*y2 + x', y1=sc('d1.y1')), promotes=['*'])
+        g.add_subsystem('d2', om.ExecComp('y2 = 0.25*y1 + 1', y2=sc('d2.y2')), promotes=['*'])
         g.nonlinear_solver = om.NonlinearBlockGS(maxiter=case['nl_iter'], **nl_kw)
         inits = {'t.x': case['init'][0]}
     else:
@@ -227,7 +351,9 @@ class C17(Property):
         'C17_get_case_needs_unique_names', 'C17_list_sources_root_prefix_counterexample',
         'C17_solver_source_counterexample', 'C17_newton_subsolve_source_counterexample']
     rule = ("cases: template in {coupled group with NonlinearBlockGS, with Newton+ArmijoGoldstein linesearch, "
-            "with Newton solve_subsystems, flat chain with subsystems c1/c10, subsystem named 'rootfind', "
+            "with Newton solve_subsystems, flat chain with subsystems c1/c10 (scalar and 3-element array "
+            "variables), 45% of the cases with ref/ref0/res_ref scaling (scalar, per-element arrays, ref<ref0) on "
+            "some recorded outputs, subsystem named 'rootfind', "
             "group named 't'} x one SqliteRecorder attached to a random non-empty subset of the template's "
             "attachment points with random recording options (includes/excludes from a glob vocabulary with "
             "* and ?, record_* flags) x run sequence in {run_model x1..3 with case_prefix / "
@@ -236,12 +362,13 @@ class C17(Property):
             "Non-trivial: at least two cases recorded from at least two attachment points or a driver "
             "with >= 10 iterations; distinct by canonical case encoding.")
     assumptions = [
-        "patterns use only literals, '*' and '?' (no bracket classes); no discrete variables, no scaling "
-        "(ref/res_ref), serial run (rank 0)",
+        "patterns use only literals, '*' and '?' (no bracket classes); no discrete variables, serial run "
+        "(rank 0)",
         "multi-run sequences use distinct case_prefix or reset_iter_counts=False (documented way to keep "
         "case names unique); the duplicate-name stream is compared with the model only",
-        "the live snapshot is taken with System.get_val(kind=..., from_src=False) on the root model "
-        "immediately before the recorder is called",
+        "the live snapshot is the PHYSICAL value of every variable of the root vectors immediately before "
+        "the recorder is called; which entries are currently scaled is tracked by wrapping "
+        "DefaultVector.scale_to_norm/scale_to_phys during the run (OpenMDAO keeps no such flag)",
     ]
     level_text = ("Proved in Lean for all inputs: the glob matcher against its declarative relation; stored "
                   "variable sets of driver/problem/system/solver cases = the declarative selection rule; the "
@@ -321,8 +448,10 @@ class C17(Property):
                 t = 'sellar_newton'
             elif r < 0.64:
                 t = 'sellar_newton_sub'
-            elif r < 0.86:
+            elif r < 0.78:
                 t = 'flat'
+            elif r < 0.86:
+                t = 'flat_arr'
             elif r < 0.93:
                 t = 'rootfind'
             else:
@@ -333,7 +462,7 @@ class C17(Property):
             if not has_driver or rr < 0.5:
                 drv = {'kind': 'none'}
             elif rr < 0.75:
-                drv = {'kind': 'doe', 'levels': rng.choice([2, 3, 4, 4])}
+                drv = {'kind': 'doe', 'levels': 2 if t == 'flat_arr' else rng.choice([2, 3, 4, 4])}
             else:
                 drv = {'kind': 'slsqp', 'maxiter': rng.choice([3, 13, 16] if tier == 'quick' else [3, 14, 20, 30])}
             k_att = rng.choice([1, 2, 2, 3, 3, 4, len(pts)])
@@ -373,6 +502,7 @@ class C17(Property):
                         'init': [rng.choice([-1.0, 0.5, 1.0, 2.0, -1.5]), rng.choice([1.5, -0.5, 0.25, 2.0])],
                         'pre_load': rng.random() < 0.5, 'viewer': rng.random() < 0.15,
                         'idx_problem': rng.random() < 0.25,
+                        'scaling': _scaling(rng, t) if rng.random() < 0.45 else {},
                         'qseed': rng.randrange(1 << 30)})
         return out
 
@@ -413,12 +543,14 @@ class C17(Property):
 
         log = []
         orig = rec.record_iteration
+        scale_state = ScaleState(m)
 
         def hook(req, data, metadata, **kw):
             snap = {'input': {}, 'output': {}, 'residual': {}}
             for n in out_names:
-                snap['output'][n] = np.array(m.get_val(n, kind='output', from_src=False, flat=False))
-                snap['residual'][n] = np.array(m.get_val(n, kind='residual', from_src=False, flat=False))
+                shp = np.shape(m.get_val(n, kind='output', from_src=False, flat=False))
+                snap['output'][n] = scale_state.physical('output', n).reshape(shp)
+                snap['residual'][n] = scale_state.physical('residual', n).reshape(shp)
             for n in in_names:
                 snap['input'][n] = np.array(m.get_val(n, kind='input', from_src=False, flat=False))
             it = req._recording_iter
@@ -439,7 +571,7 @@ class C17(Property):
         import contextlib
         import io
         try:
-            with contextlib.redirect_stdout(io.StringIO()):
+            with contextlib.redirect_stdout(io.StringIO()), scale_state:
                 for kind, arg, reset in case['runs']:
                     if kind == 'run_model':
                         p.run_model(case_prefix=arg, reset_iter_counts=reset)
@@ -811,6 +943,19 @@ class C17(Property):
             b.append('open_error')
         if impl.get('run_error'):
             b.append('run_raised')
+        sc = case.get('scaling') or {}
+        if sc:
+            b.append('scaled_outputs')
+            for meta in sc.values():
+                if 'res_ref' in meta:
+                    b.append('scaling:res_ref')
+                if isinstance(meta.get('ref'), list):
+                    b.append('scaling:array_ref')
+                r, r0 = meta.get('ref'), meta.get('ref0', 0.0)
+                if r is not None and not isinstance(r, list) and r < r0:
+                    b.append('scaling:ref<ref0')
+                if isinstance(r, list) and any(a < c for a, c in zip(r, r0)):
+                    b.append('scaling:ref<ref0')
         return b
 
     # -- model -------------------------------------------------------------------------------------------
